@@ -24,6 +24,7 @@ TkPre(role, p, s, n) == [role |-> role, k |-> "rep", s |-> s, n |-> n, b |-> <<>
 CRLF == Tk("crlf", "\r\n")
 SP   == Tk("sp", " ")
 Hdr(name, value) == <<Tk("hname", name), Tk("hsep", ": "), Tk("hvalue", value), CRLF>>
+HdrC(name, value) == <<Tk("hname", name), Tk("hsep", ":"), Tk("hvalue", value), CRLF>>      \* "Name:value", also legal
 
 RECURSIVE Flatten(_)
 Flatten(ss) == IF ss = <<>> THEN <<>> ELSE Head(ss) \o Flatten(Tail(ss))
@@ -96,6 +97,11 @@ Seeds == {
                                 Hdr("Save-Data", "on"), Hdr("Device-Memory", "8"), Hdr("Sec-CH-Prefers-Reduced-Motion", "no-preference"),
                                 Hdr("Sec-CH-Prefers-Color-Scheme", "dark"), Hdr("Sec-Fetch-Dest", "document"), Hdr("Sec-Fetch-Mode", "navigate"),
                                 Hdr("DNT", "1"), Hdr("X-Forwarded-For", "10.0.0.1"), Hdr("Referer", "http://localhost/index.html")>>, NoBody)],
+  \* the reflected headers in the compact spelling "Name:value" (every single mutation of a value then meets the other separator)
+  [id |-> "options_cors_compact", doc |-> Request("OPTIONS", "/a.txt", "HTTP/1.1",
+                              <<Host, HdrC("Origin", "https://o.example"), HdrC("Access-Control-Request-Method", "PUT"),
+                                HdrC("Access-Control-Request-Headers", "Content-Type, X-K")>>, NoBody)],
+  [id |-> "get_origin_compact", doc |-> Request("GET", "/a.txt", "HTTP/1.1", <<HdrC("Host", "localhost"), HdrC("Origin", "https://o.example"), HdrC("Range", "bytes=0-1")>>, NoBody)],
   \* two requests in one segment: the server reads a connection once and must answer exactly once
   [id |-> "pipelined_gets", doc |-> Request("GET", "/a.txt", "HTTP/1.1", <<Host>>,
                               Tk("body", "GET /index.html HTTP/1.1\r\nHost: localhost\r\n\r\nGET /nx HTTP/1.1\r\nHost: localhost\r\n\r\n"))],
@@ -162,6 +168,9 @@ Alts(role) ==
                                Alt(Tk(role, "multipart/form-data; boundary="), "any"), Alt(Tk(role, "multipart/form-data"), "any"),
                                Alt(Tk(role, "application/x-www-form-urlencoded"), "any"),
                                Alt(Tk(role, "x\r\nInjected: 1"), "any"), Alt(Tk(role, "x\nInjected: 1"), "any"), Alt(Tk(role, "x\rInjected: 1"), "any"),
+                               \* the same without a blank after the colon (a parser with two separator paths may scrub only one of them)
+                               Alt(Tk(role, "x\r\nInjected:1"), "any"), Alt(Tk(role, "x\nInjected:1"), "any"), Alt(Tk(role, "x\rInjected:1"), "any"),
+                               Alt(Tk(role, "x\rSet-Cookie:sid=1"), "any"),
                                Alt(Tk(role, "a: b: c"), "any"), Alt(TkB(role, <<120, 0, 121>>), "any"), Alt(TkB(role, NonUtf8), "any"),
                                Alt(Tk(role, "HTTP/1.1 200 OK"), "any"), Alt(TkRep(role, "v", 9000), "any") }
       [] role = "blank"   -> { Alt(Tk(role, ""), "any"), Alt(Tk(role, "\n"), "any"), Alt(TkRep(role, "a\n", 5000), "any"),
